@@ -1,0 +1,45 @@
+//go:build verif
+
+package board
+
+import (
+	. "github.com/paulsonkoly/chess-3/chess"
+)
+
+// This file is only compiled with the `verif` build tag. It exposes private
+// state of Board to the verification harness in /verif and adds no behaviour.
+
+// VerifSnap is a deep snapshot of every attribute of a Board.
+type VerifSnap struct {
+	SquaresToPiece [64]Piece
+	Pieces         [7]BitBoard
+	Colors         [2]BitBoard
+	Hashes         []Hash
+	FullMoves      int
+	STM            Color
+	EnPassant      Square
+	Castles        Castles
+	FiftyCnt       Depth
+}
+
+// VerifSnapshotInto fills s with a deep copy of b, re-using s.Hashes' storage.
+func (b *Board) VerifSnapshotInto(s *VerifSnap) {
+	s.SquaresToPiece = b.SquaresToPiece
+	s.Pieces = b.Pieces
+	s.Colors = b.Colors
+	s.Hashes = append(s.Hashes[:0], b.hashes...)
+	s.FullMoves = b.fullMoves
+	s.STM = b.STM
+	s.EnPassant = b.EnPassant
+	s.Castles = b.Castles
+	s.FiftyCnt = b.FiftyCnt
+}
+
+// VerifCalcHash is the from-scratch Zobrist hash of b.
+func (b *Board) VerifCalcHash() Hash { return b.calculateHash() }
+
+// VerifFullMoves is the full move counter.
+func (b *Board) VerifFullMoves() int { return b.fullMoves }
+
+// VerifHistory is the hash history (not a copy).
+func (b *Board) VerifHistory() []Hash { return b.hashes }
